@@ -263,11 +263,12 @@ def gen_device(
         }
     physical = mode == "physical"
     chans: list[dict] = []
-    if not physical and rng.random() < xy_p:
+    xy_dev = not physical and rng.random() < xy_p
+    if xy_dev:
         chans.append(
             gen_channel(rng, "mw_a", "Microwave", "Global", allow_eom=False, bw_bias=bw_bias)
         )
-        if rng.random() < 0.5:
+        if rng.random() < 0.7:
             chans.append(
                 gen_channel(rng, "mw_b", "Microwave", "Global", allow_eom=False, bw_bias=bw_bias)
             )
@@ -288,7 +289,7 @@ def gen_device(
             chans.append(
                 gen_channel(rng, cid, cls, addr, physical=physical, bw_bias=bw_bias)
             )
-    n_dmm = _pick(rng, [0, 1, 1, 2])
+    n_dmm = _pick(rng, [0, 1, 1, 2]) if not xy_dev else _pick(rng, [1, 1, 2])
     dmms = [gen_dmm(rng, physical) for _ in range(n_dmm)]
     spec = {
         "kind": mode,
@@ -299,7 +300,7 @@ def gen_device(
         "max_atom_num": 20 if physical else None,
         "max_radial_distance": 50 if physical else None,
         "interaction_coeff_xy": 3700.0,
-        "supports_slm_mask": bool(dmms) and rng.random() < 0.7,
+        "supports_slm_mask": bool(dmms) and rng.random() < (0.95 if xy_dev else 0.7),
         "max_sequence_duration": _pick(
             rng, [None, None, None, 100000, 4000, 1500]
         ),
